@@ -411,8 +411,8 @@ def simulation(draw, M, k, nsim):
 
 
 @st.composite
-def program(draw):
+def program(draw, max_sims=8):
     M = Model()
-    nsim = draw(st.integers(3, 8))
+    nsim = draw(st.integers(3, max_sims))
     sims = [simulation(draw, M, k, nsim) for k in range(nsim)]
     return {"db": DB, "sims": sims, "feats": sorted(M.feats)}
